@@ -5,7 +5,26 @@ import (
 	"os"
 
 	"hx/lib"
+	_ "hx/props/c01"
+	_ "hx/props/c02"
+	_ "hx/props/c03"
+	_ "hx/props/c04"
+	_ "hx/props/c05"
+	_ "hx/props/c06"
+	_ "hx/props/c07"
+	_ "hx/props/c08"
 	_ "hx/props/c09"
+	_ "hx/props/c10"
+	_ "hx/props/c11"
+	_ "hx/props/c12"
+	_ "hx/props/c13"
+	_ "hx/props/c14"
+	_ "hx/props/c15"
+	_ "hx/props/c16"
+	_ "hx/props/c17"
+	_ "hx/props/c18"
+	_ "hx/props/c19"
+	_ "hx/props/c20"
 )
 
 func main() { lib.Main(os.Args[1:]) }
